@@ -19,6 +19,7 @@ func init() {
 	execs["c07.lines"] = execC07Lines
 	execs["c07.hash"] = execC07Hash
 	execs["c07.alias"] = execC07Alias
+	execs["c07.text"] = execC07Text
 	gens["C07"] = genC07
 }
 
@@ -378,6 +379,10 @@ func genC07(c *Ctx) {
 	c07FullCells(c, r.Fork(0xc07e))
 	c07WideLean(c, r.Fork(0xc07f))
 	c07Phase("full-cells+wide-lean")
+	// 11. text entry points: JSON tokens of every kind and length 0..3, hex /
+	//     base64 strings, quoted and not, direct calls and through encoding/json
+	c07TextTokens(c, r.Fork(0xc080), seeds)
+	c07Phase("text-tokens")
 	c07DumpStats()
 }
 
